@@ -315,6 +315,7 @@ early_lazy_global = ScannedGA()    # keeps its early position in the module dict
 
 def outer_with_closure(v):
     watcher = CallableGA()        # a callable local of the outer frame: get_func's last resort inspects it
+    bystander = ScannedGA()       # a NON-callable local of the outer frame: the last resort must pass over it untouched
 
     def local_fn(x):
         return x
@@ -329,6 +330,8 @@ def make_values(rnd):
         [LDictNoIter(c=2)], {"m": LDictNoIter(d=3)},
         [GA("in-list"), HE(3)], {"k": GA("in-dict"), "l": LList([3])}, {he_key: 1, "s": 2}, (FakeClass(), LDict(b=2)),
         {HE(4)}, collections.defaultdict(int, {"z": GA("dd")}), [LList([GA("deep")])],
+        # hooked objects as dict KEYS (first key, and after a str key)
+        {GA("key"): 1, "t": 2}, {"t": 2, FakeClass(): 1}, {GA("only-key"): GA("val")},
     ]
     rnd.shuffle(base)
     return base
